@@ -1,5 +1,5 @@
 """Property -> rule composition.  Each function decides the statically decidable clauses of one property."""
-from .rules import kdefects, numeric, seed, typestate, ownership, clifford, circuit, stabilizer, adjoint, manifold, gellmann, twins, backend, masks, axes, pauli, convexroof, boundary, measure, relabel, angles, shapes, hermitian, ptrace
+from .rules import kdefects, numeric, seed, typestate, ownership, clifford, circuit, stabilizer, adjoint, manifold, gellmann, twins, backend, masks, axes, pauli, convexroof, boundary, measure, relabel, angles, shapes, hermitian, ptrace, symplectic
 
 M = 'numqi.'
 DECISION_C05 = ['numqi.entangle.ppt.is_ppt', 'numqi.entangle.ppt.is_generalized_ppt',
@@ -334,8 +334,26 @@ def c17(proj, rep, tier):
                '(<r|D_a><D_b|s> summed over the other copies) are value-level: not decided')
 
 
+def c09(proj, rep, tier):
+    n = symplectic.sp1(proj, rep)
+    rep.floor('SP1 radix arms', n, 4)
+    n = symplectic.sp2(proj, rep)
+    rep.floor('SP2 embedding / extraction', n, 2)
+    n = symplectic.sp3(proj, rep)
+    rep.floor('SP3 (a_i, b_i) codec obligations', n, 4)
+    n = symplectic.sp4(proj, rep)
+    rep.floor('SP4 bit/byte order', n, 1)
+    n = symplectic.sp5(proj, rep)
+    rep.floor('SP5 inner product / transvection / inverse', n, 3)
+    n = symplectic.sp6(proj, rep)
+    rep.floor('SP6 find_transvection twin blocks', n, 1)
+    n = seed.s5(proj, rep, ['numqi.random._spf2'])
+    rep.assume('the bijection itself (distinct tuples -> distinct matrices, image = the whole group, Lemma 2 case analysis mapping v0 to v1) '
+               'is a property of run-time bit vectors: not decided. Decided: encoder/decoder agreement and the helper tables they share.')
+
+
 def dev(proj, rep, tier):
     pass
 
 
-PROPS = {'C01': c01, 'C02': c02, 'C06': c06, 'C08': c08, 'C13': c13, 'C12': c12, 'C15': c15, 'C16': c16, 'C03': c03, 'C04': c04, 'C05': c05, 'C07': c07, 'C19': c19, 'C10': c10, 'C11': c11, 'C18': c18, 'C20': c20, 'C17': c17, 'DEV': dev}
+PROPS = {'C01': c01, 'C02': c02, 'C06': c06, 'C08': c08, 'C13': c13, 'C12': c12, 'C15': c15, 'C16': c16, 'C03': c03, 'C04': c04, 'C05': c05, 'C07': c07, 'C19': c19, 'C10': c10, 'C11': c11, 'C18': c18, 'C20': c20, 'C17': c17, 'C09': c09, 'DEV': dev}
